@@ -86,7 +86,7 @@ theorem case2_lambda (L : Laws2 D) {f : Nat} {cst cst' : CState} {c : Ctx} {base
     simp only at hq2 hk
     subst hq2
     simp [rsrc, hk]
-  obtain ⟨h', pp, cenv, hmk, hcallee, hfresh, hslots, hframe, hglob, hext, hsrx⟩ :=
+  obtain ⟨h', pp, cenv, hmk, hcallee, hfresh, hslots, hframe, hglob, hext, hsrx, henvok⟩ :=
     L.closure_ok s.heap σ.store (D.LM st1.lambdas.length) s.ep s.bp s.stack _ hi.extra hisl hsrcs
       (by
         intro j k hj
@@ -111,7 +111,7 @@ theorem case2_lambda (L : Laws2 D) {f : Nat} {cst cst' : CState} {c : Ctx} {base
   · -- the closure value
     refine ⟨rfl, D.LM st1.lambdas.length, cenv, hcallee, ?_⟩
     refine ⟨f, cst, st1, c, formals, body, p, bcode, caps, hp, hps, hva, hnd, hbody, hnodef, hcb, hfin, hpre1, rfl,
-      (hext.code _ hisl).1, hfb, ?_, hem, fun q hq => (hcaps q hq).1, ?_, ?_⟩
+      (hext.code _ hisl).1, hfb, ?_, hem, fun q hq => (hcaps q hq).1, ?_, ?_, henvok⟩
     · rw [(hext.code _ hisl).2.2.2, hsrcs, hem]
     · intro j hj
       rw [hem] at hj
